@@ -90,24 +90,24 @@ fn rec_workload(m: &mut Mon, r: &mut Rng, ends: &[f64]) {
     m.case(hash_bits(15, ends.iter().map(|e| e.to_bits()).chain([s.to_bits(), v.to_bits()])));
     let base = rec_pw(ends);
     // Piecewise level
-    match guard(|| base.clone() * s) {
+    match guard(|| dup(&base) * s) {
         Ok(p) => check_rec(m, "Piecewise", Op::Mul(s), ends, &p.segments),
         Err(p) => m.panic("Piecewise mul panic", &p, || json!({"ends": hxs(ends)})),
     }
     match guard(|| {
-        let mut p = base.clone();
+        let mut p = dup(&base);
         p *= s;
         p
     }) {
         Ok(p) => check_rec(m, "Piecewise", Op::MulAssign(s), ends, &p.segments),
         Err(p) => m.panic("Piecewise mul_assign panic", &p, || json!({"ends": hxs(ends)})),
     }
-    match guard(|| -(base.clone())) {
+    match guard(|| -(dup(&base))) {
         Ok(p) => check_rec(m, "Piecewise", Op::Neg, ends, &p.segments),
         Err(p) => m.panic("Piecewise neg panic", &p, || json!({"ends": hxs(ends)})),
     }
     match guard(|| {
-        let mut p = base.clone();
+        let mut p = dup(&base);
         p.translate(v);
         p
     }) {
@@ -262,7 +262,7 @@ fn value_level<T: Nums + Evaluate>(m: &mut Mon, opname: &str, orig: &Piecewise<T
 /// translate(+-inf) must raise the value to +-inf wherever the function is finite (no tolerance involved)
 fn nonfinite_translate<T: Nums + Evaluate + Translate + Clone>(m: &mut Mon, pw: &Piecewise<T>, name: &str, positive: bool) {
     for c in [f64::INFINITY, f64::NEG_INFINITY] {
-        let mut q = pw.clone();
+        let mut q = dup(&pw);
         if guard(|| q.translate(c)).is_err() {
             m.panic("Piecewise translate panic (non-finite scalar)", "panic", || json!({"type": name}));
             return;
@@ -296,7 +296,7 @@ macro_rules! real_full {
         let v = scalar(r);
         m.case(hash_bits(151, pw_nums(&pw).iter().map(|e| e.to_bits()).chain([s.to_bits(), v.to_bits(), <$t as Nums>::LEN as u64])));
         let alone: Vec<$t> = pw.segments.iter().map(|x| x.poly * s).collect();
-        match guard(|| pw.clone() * s) {
+        match guard(|| dup(&pw) * s) {
             Ok(res) => {
                 if check_real(m, "Piecewise", "mul", &pw, &res, &alone) && $val {
                     value_level(m, "mul", &pw, &res, |y| s * y, s.abs(), 0.0);
@@ -305,12 +305,12 @@ macro_rules! real_full {
             Err(p) => m.panic("Piecewise mul panic (real)", &p, || json!({"type": <$t as Nums>::NAME})),
         }
         let alone_a: Vec<$t> = pw.segments.iter().map(|x| { let mut q = x.poly; q *= s; q }).collect();
-        match guard(|| { let mut q = pw.clone(); q *= s; q }) {
+        match guard(|| { let mut q = dup(&pw); q *= s; q }) {
             Ok(res) => {
                 check_real(m, "Piecewise", "mul_assign", &pw, &res, &alone_a);
                 // `*=` and `*` are the same scaling: (f *= s) must be bit-identical to f * s
                 m.count("mul_assign_vs_mul_compared");
-                if let Ok(byval) = guard(|| pw.clone() * s) {
+                if let Ok(byval) = guard(|| dup(&pw) * s) {
                     if !all_bits_eq(&pw_nums(&res), &pw_nums(&byval)) {
                         m.violation("Piecewise *= differs from Piecewise * (same scalar)", || json!({"type": <$t as Nums>::NAME, "scalar": hx(s), "first_piece": hxs(&pw.segments[0].poly.nums()),
                             "mul_assign": hxs(&res.segments[0].poly.nums()), "mul": hxs(&byval.segments[0].poly.nums())}));
@@ -320,7 +320,7 @@ macro_rules! real_full {
             Err(p) => m.panic("Piecewise mul_assign panic (real)", &p, || json!({"type": <$t as Nums>::NAME})),
         }
         let alone_n: Vec<$t> = pw.segments.iter().map(|x| -x.poly).collect();
-        match guard(|| -(pw.clone())) {
+        match guard(|| -(dup(&pw))) {
             Ok(res) => {
                 if check_real(m, "Piecewise", "neg", &pw, &res, &alone_n) && $val {
                     value_level(m, "neg", &pw, &res, |y| -y, 1.0, 0.0);
@@ -329,7 +329,7 @@ macro_rules! real_full {
             Err(p) => m.panic("Piecewise neg panic (real)", &p, || json!({"type": <$t as Nums>::NAME})),
         }
         let alone_t: Vec<$t> = pw.segments.iter().map(|x| { let mut q = x.poly; q.translate(v); q }).collect();
-        match guard(|| { let mut q = pw.clone(); q.translate(v); q }) {
+        match guard(|| { let mut q = dup(&pw); q.translate(v); q }) {
             Ok(res) => {
                 if check_real(m, "Piecewise", "translate", &pw, &res, &alone_t) && $val {
                     value_level(m, "translate", &pw, &res, |y| y + v, 1.0, v.abs());
@@ -358,17 +358,17 @@ macro_rules! real_log {
         let v = scalar(r);
         m.case(hash_bits(152, pw_nums(&pw).iter().map(|e| e.to_bits()).chain([s.to_bits(), v.to_bits(), <$t as Nums>::LEN as u64])));
         let alone: Vec<Log<$t>> = pw.segments.iter().map(|x| x.poly * s).collect();
-        match guard(|| pw.clone() * s) {
+        match guard(|| dup(&pw) * s) {
             Ok(res) => { check_real(m, "Piecewise", "mul", &pw, &res, &alone); }
             Err(p) => m.panic("Piecewise mul panic (real)", &p, || json!({"type": <Log<$t> as Nums>::NAME})),
         }
         let alone_a: Vec<Log<$t>> = pw.segments.iter().map(|x| { let mut q = x.poly; q *= s; q }).collect();
-        match guard(|| { let mut q = pw.clone(); q *= s; q }) {
+        match guard(|| { let mut q = dup(&pw); q *= s; q }) {
             Ok(res) => { check_real(m, "Piecewise", "mul_assign", &pw, &res, &alone_a); }
             Err(p) => m.panic("Piecewise mul_assign panic (real)", &p, || json!({"type": <Log<$t> as Nums>::NAME})),
         }
         let alone_t: Vec<Log<$t>> = pw.segments.iter().map(|x| { let mut q = x.poly; q.translate(v); q }).collect();
-        match guard(|| { let mut q = pw.clone(); q.translate(v); q }) {
+        match guard(|| { let mut q = dup(&pw); q.translate(v); q }) {
             Ok(res) => { check_real(m, "Piecewise", "translate", &pw, &res, &alone_t); }
             Err(p) => m.panic("Piecewise translate panic (real)", &p, || json!({"type": <Log<$t> as Nums>::NAME})),
         }
@@ -382,14 +382,14 @@ fn real_quartic(m: &mut Mon, r: &mut Rng) {
     let v = scalar(r);
     m.case(hash_bits(153, pw_nums(&pw).iter().map(|e| e.to_bits()).chain([s.to_bits(), v.to_bits()])));
     let alone: Vec<IntOfLogPoly4> = pw.segments.iter().map(|x| x.poly * s).collect();
-    match guard(|| pw.clone() * s) {
+    match guard(|| dup(&pw) * s) {
         Ok(res) => {
             check_real(m, "Piecewise", "mul", &pw, &res, &alone);
         }
         Err(p) => m.panic("Piecewise mul panic (real)", &p, || json!({"type": "IntOfLogPoly4"})),
     }
     let alone_n: Vec<IntOfLogPoly4> = pw.segments.iter().map(|x| -x.poly).collect();
-    match guard(|| -(pw.clone())) {
+    match guard(|| -(dup(&pw))) {
         Ok(res) => {
             check_real(m, "Piecewise", "neg", &pw, &res, &alone_n);
         }
@@ -405,7 +405,7 @@ fn real_quartic(m: &mut Mon, r: &mut Rng) {
         })
         .collect();
     match guard(|| {
-        let mut q = pw.clone();
+        let mut q = dup(&pw);
         q.translate(v);
         q
     }) {
